@@ -270,11 +270,21 @@ def run(ctx):
             if rnd.random() < 0.25:  # an output variable no rule concludes on
                 extra = dict(spec["outputs"][0], name="idle", terms=[dict(t, name=f"z{j}") for j, t in enumerate(spec["outputs"][0]["terms"])])
                 spec["outputs"].append(extra)
+            whole = i % 5 == 3
+            if whole:  # ranges on whole numbers, held as Python or NumPy integers (InputVariable("x", minimum=0, maximum=10))
+                for v in spec["inputs"]:
+                    v["minimum"] = float(math.floor(v["minimum"]))
+                    v["maximum"] = v["minimum"] + rnd.choice([1.0, 3.0, 10.0])
             try:
                 engine = E.build(fl, spec)
             except Exception as ex:
                 ctx.hit(f"inconclusive:generated engine does not build: {type(ex).__name__}")
                 continue
+            if whole:
+                for v in engine.input_variables:
+                    kind = rnd.choice([int, int, np.int64, np.float32])
+                    v.minimum, v.maximum = kind(v.minimum), kind(v.maximum)
+                ctx.hit("ranges held as integers")
             for rep in range(ctx.scale(4, 6)):
                 each = rnd.random() < 0.4
                 if each:
@@ -359,6 +369,7 @@ def run(ctx):
                 ctx.sample("reader", {"reader": text, "skip_lines": skip})
         probe.report(ctx)
         reach.report(ctx)
+    ctx.require("ranges held as integers")
     ctx.require("hook:FldExporter.to_string_from_scope", "hook:FldExporter.to_string_from_reader", "scope:AllVariables", "scope:EachVariable", "scope:reader", "compare:outputs of a row", "piece:perfect power", "piece:between powers", "inputs:1", "inputs:2", "inputs:3", "inputs:4", "entry:file", "entry:writer")
 
 
